@@ -45,61 +45,71 @@ theorem entryLoop_ok (site : String) : ∀ (n : Nat) (es : List Bool) (k : Nat),
       | panic s => rw [hr] at h; simp at h
 
 theorem ruleLoop_no_panic (nIn nOut : Nat) : ∀ rs : List RuleS,
-    (∀ r ∈ rs, nIn ≤ r.inputs.length ∧ nOut ≤ r.outputs.length) →
     (ruleLoop nIn nOut rs).isPanic = false
-  | [], _ => by simp [ruleLoop, Outcome.isPanic]
-  | r :: rs, h => by
-    have hr := h r (by simp)
-    have ih := ruleLoop_no_panic nIn nOut rs (fun r' hr' => h r' (by simp [hr']))
-    have h1 := entryLoop_no_panic "decision_table.rs:297 rule.input_entries[i]" nIn r.inputs hr.1
-    have h2 := entryLoop_no_panic "decision_table.rs:311 rule.output_entries[i]" nOut r.outputs hr.2
+  | [] => by simp [ruleLoop, Outcome.isPanic]
+  | r :: rs => by
+    have ih := ruleLoop_no_panic nIn nOut rs
     simp only [ruleLoop]
-    cases ha : entryLoop "decision_table.rs:297 rule.input_entries[i]" nIn r.inputs with
-    | error m => simp [Outcome.isPanic]
-    | panic s => rw [ha] at h1; simp [Outcome.isPanic] at h1
-    | ok a =>
-      cases hb : entryLoop "decision_table.rs:311 rule.output_entries[i]" nOut r.outputs with
+    split
+    · simp [Outcome.isPanic]
+    · rename_i hsz
+      have hsz' : r.inputs.length = nIn ∧ r.outputs.length = nOut := by omega
+      have h1 := entryLoop_no_panic "decision_table.rs:311 rule.input_entries[i]" nIn r.inputs (by omega)
+      have h2 := entryLoop_no_panic "decision_table.rs:325 rule.output_entries[i]" nOut r.outputs (by omega)
+      cases ha : entryLoop "decision_table.rs:311 rule.input_entries[i]" nIn r.inputs with
       | error m => simp [Outcome.isPanic]
-      | panic s => rw [hb] at h2; simp [Outcome.isPanic] at h2
-      | ok b =>
-        cases hc : ruleLoop nIn nOut rs with
-        | ok ps => simp [Outcome.isPanic]
+      | panic s => rw [ha] at h1; simp [Outcome.isPanic] at h1
+      | ok a =>
+        cases hb : entryLoop "decision_table.rs:325 rule.output_entries[i]" nOut r.outputs with
         | error m => simp [Outcome.isPanic]
-        | panic s => rw [hc] at ih; simp [Outcome.isPanic] at ih
+        | panic s => rw [hb] at h2; simp [Outcome.isPanic] at h2
+        | ok b =>
+          cases hc : ruleLoop nIn nOut rs with
+          | ok ps => simp [Outcome.isPanic]
+          | error m => simp [Outcome.isPanic]
+          | panic s => rw [hc] at ih; simp [Outcome.isPanic] at ih
 
+/-- A successful rule loop: one pair `(nIn, nOut)` per rule, and every rule has exactly one
+entry per clause. -/
 theorem ruleLoop_shape (nIn nOut : Nat) : ∀ (rs : List RuleS) (ps : Parsed),
-    ruleLoop nIn nOut rs = .ok ps → ps.length = rs.length ∧ ∀ p ∈ ps, p = (nIn, nOut)
+    ruleLoop nIn nOut rs = .ok ps →
+      ps = rs.map (fun _ => (nIn, nOut)) ∧
+      ∀ r ∈ rs, r.inputs.length = nIn ∧ r.outputs.length = nOut
   | [], ps, h => by simp [ruleLoop] at h; subst h; simp
   | r :: rs, ps, h => by
     simp only [ruleLoop] at h
-    cases ha : entryLoop "decision_table.rs:297 rule.input_entries[i]" nIn r.inputs with
-    | error m => rw [ha] at h; simp at h
-    | panic s => rw [ha] at h; simp at h
-    | ok a =>
-      rw [ha] at h
-      cases hb : entryLoop "decision_table.rs:311 rule.output_entries[i]" nOut r.outputs with
-      | error m => rw [hb] at h; simp at h
-      | panic s => rw [hb] at h; simp at h
-      | ok b =>
-        rw [hb] at h
-        cases hc : ruleLoop nIn nOut rs with
-        | error m => rw [hc] at h; simp at h
-        | panic s => rw [hc] at h; simp at h
-        | ok ps' =>
-          rw [hc] at h
-          simp only [Outcome.ok.injEq] at h
-          subst h
-          have ih := ruleLoop_shape nIn nOut rs ps' hc
-          have e1 := entryLoop_ok _ _ _ _ ha
-          have e2 := entryLoop_ok _ _ _ _ hb
-          subst e1 e2
-          constructor
-          · simp [ih.1]
-          · intro p hp
-            simp only [List.mem_cons] at hp
-            rcases hp with hp | hp
-            · exact hp
-            · exact ih.2 p hp
+    split at h
+    · simp at h
+    · rename_i hsz
+      have hsz' : r.inputs.length = nIn ∧ r.outputs.length = nOut := by omega
+      cases ha : entryLoop "decision_table.rs:311 rule.input_entries[i]" nIn r.inputs with
+      | error m => rw [ha] at h; simp at h
+      | panic s => rw [ha] at h; simp at h
+      | ok a =>
+        rw [ha] at h
+        cases hb : entryLoop "decision_table.rs:325 rule.output_entries[i]" nOut r.outputs with
+        | error m => rw [hb] at h; simp at h
+        | panic s => rw [hb] at h; simp at h
+        | ok b =>
+          rw [hb] at h
+          cases hc : ruleLoop nIn nOut rs with
+          | error m => rw [hc] at h; simp at h
+          | panic s => rw [hc] at h; simp at h
+          | ok ps' =>
+            rw [hc] at h
+            simp only [Outcome.ok.injEq] at h
+            subst h
+            have ih := ruleLoop_shape nIn nOut rs ps' hc
+            have e1 := entryLoop_ok _ _ _ _ ha
+            have e2 := entryLoop_ok _ _ _ _ hb
+            subst e1 e2
+            constructor
+            · simp [ih.1]
+            · intro r' hr'
+              simp only [List.mem_cons] at hr'
+              rcases hr' with rfl | hr'
+              · exact hsz'
+              · exact ih.2 r' hr'
 
 /-! ## sequencing -/
 
